@@ -268,7 +268,9 @@ func (vc *VC) modelCall(fr *Frame, st *State, callee *ssa.Function, args []strin
 		vc.setShape(r, shHole(kind, src))
 		return []string{r}, true
 	case "strconv.ParseUint":
-		v := vc.fresh("Int", "parseuint")
+		// the value is a (deterministic) function of the text, the base and the bit size: specifications name it parseuint(s, base, bits)
+		vc.declareOnceRaw("parseuint_val", "(declare-fun parseuint_val (Int Int Int) Int)")
+		v := vc.def("Int", fmt.Sprintf("(parseuint_val %s %s %s)", args[0], args[1], args[2]), "parseuint")
 		e := vc.fresh("Iface", "parseerr")
 		vc.typeFacts(st, e, callee.Signature.Results().At(1).Type())
 		// bitSize argument bounds the value on success; on error the value is 0 or max (we keep it in range)
@@ -279,7 +281,8 @@ func (vc *VC) modelCall(fr *Frame, st *State, callee *ssa.Function, args []strin
 		vc.fact(st.pc, fmt.Sprintf("(=> (= (slen %s) 0) (> (if_type %s) 0))", args[0], e))
 		return []string{v, e}, true
 	case "strconv.ParseFloat":
-		v := vc.fresh("Real", "parsefloat")
+		vc.declareOnceRaw("parsefloat_val", "(declare-fun parsefloat_val (Int Int) Real)")
+		v := vc.def("Real", fmt.Sprintf("(parsefloat_val %s %s)", args[0], args[1]), "parsefloat")
 		e := vc.fresh("Iface", "parseerr")
 		vc.typeFacts(st, e, callee.Signature.Results().At(1).Type())
 		return []string{v, e}, true
